@@ -9,13 +9,13 @@ package main
 // greatest fixed point over the region reachable from a stated entry point.
 
 import (
-	"os"
-	"strconv"
 	"fmt"
 	"go/constant"
 	"go/token"
 	"go/types"
+	"os"
 	"sort"
+	"strconv"
 	"strings"
 
 	"golang.org/x/tools/go/ssa"
@@ -300,16 +300,16 @@ type Flow struct {
 	// per predecessor, the atoms generated when that incoming value is
 	// true (index 0) / false (index 1), and whether the incoming value is a
 	// constant.
-	phiGen  map[*ssa.BasicBlock][]phiIn
-	edgeSt  map[[2]*ssa.BasicBlock]AtomSet
+	phiGen map[*ssa.BasicBlock][]phiIn
+	edgeSt map[[2]*ssa.BasicBlock]AtomSet
 	// sumFalse: static atoms holding when a bool result is false
 	sumFalse map[*ssa.Function]map[int]AtomSet
 	// ctxDyn: non-nil facts about the objects handed to a function, holding at every in-region call site, in the callee's names
 	ctxDyn map[*ssa.Function][]Atom
 	// dyn: kind ("err"|"true"|"false") -> function -> result index -> parametric facts
-	dyn map[string]map[*ssa.Function]map[int][]Atom
-	mcache  map[*ssa.Function]*Matcher
-	Rounds  int
+	dyn    map[string]map[*ssa.Function]map[int][]Atom
+	mcache map[*ssa.Function]*Matcher
+	Rounds int
 }
 
 type phiIn struct {
